@@ -7,6 +7,7 @@ from pyvc.stubhelpers import param_names
 IMPLICIT = []  # stack of blocks under implicit construction (xdsl.builder stub)
 ALL_OPS = []  # every op constructed in this run, in creation order (the "heap" a use-scan looks at)
 EAGER = [False]  # contracts switch this on to have replace_uses_with_if / replace_all_uses_with PERFORMED (by a scan
+PERFORM = [False]  # set by PerformingPatternRewriter: detach() and insert_op() change the view, not only the log
 #                  over ALL_OPS, i.e. over all current uses, exactly what xDSL's use-lists hold) and not only recorded
 
 
@@ -283,8 +284,12 @@ class Operation:
         return getattr(self, "is_terminator", False)
 
     def detach(self):
-        """recorded, not performed (the rewriter stub is a recorder)"""
+        """recorded; performed only under a PerformingPatternRewriter (PERFORM[0])"""
         self.detached = True
+        if PERFORM[0] and self.parent is not None:
+            blk = self.parent
+            blk.ops = [o for o in blk.ops if o is not self]
+            self.parent = None
 
     def erase(self, safe_erase=True):
         self.erased = True
